@@ -159,6 +159,11 @@ def run(ctx):
     seeds = [ctx.seed] if ctx.quick else [ctx.seed, ctx.seed + 1000, ctx.seed + 2000]
     for s in seeds:
         lines += common.harness_gen(harness, ["rand", s, nrand // len(seeds)])
+    # big-offset stream (checks/stress_streams.py): HP / IN circuits TRANSLATED (cells and update positions) to 2^24 + odd, 2^25 + k,
+    # 2^26 + k, +-(2^30 - small) in x and / or y: every pin coordinate fits an int, most of them do not fit a binary32 float
+    from checks import stress_streams
+    big, big_classes = stress_streams.big_hpwl_lines(ctx.seed, common.harness_gen(harness, ["rand", ctx.seed + 977, nrand // 5]), nrand // 10)
+    lines += big
     impl, model, errs = common.run_both([harness, "run"], [driver], lines)
     mism, ofail = [], []
     kinds = {"PO": 0, "HP": 0, "IN": 0}
@@ -240,7 +245,7 @@ def run(ctx):
     do_judged = dres["ops"] + dres["runs"] - dres["noleg"] - len(dres["crash"])
     cov.update({"trusted_base": common.TRUSTED_BASE,
                 "evaluations": len(lines) + len(seqhp) + do_judged, "distinct_nontrivial": len(nontriv),
-                "detailed_placer_value_stream": {"runs": dres["runs"], "not_legalizable": dres["noleg"], "ops": dres["ops"], "op_kinds": dres["op_kinds"],
+                "detailed_placer_value_stream": {"runs": dres["runs"], "not_legalizable": dres["noleg"], "ops": dres["ops"], "op_kinds": dres["op_kinds"], "stress_streams": dres.get("stress_streams", {}),
                                                  "runs_where_the_placement_changed": dres["nontrivial"], "states_judged": do_judged,
                                                  "states_where_value_differs_from_scratch": len(dres["value_fail"]),
                                                  "runs_not_judged_crash": len(dres["crash"]), "ops_that_threw": len(dres["throw_fail"]),
@@ -260,8 +265,17 @@ def run(ctx):
                         "IN: x or y topology over all cells or a random duplicate-free subset in random order, 0-8 position updates. non-trivial = "
                         "orientation other than N (PO) / non-zero wirelength (HP, IN); distinct = distinct case lines. DO (detailed_placer_value_stream): "
                         "DetailedPlacer::value() after construction and after every directly driven optimiser op (swap/insert/shift/reordering passes, "
-                        "single best moves) against the from-scratch wirelength of the placement it holds" % len(po),
+                        "single best moves) against the from-scratch wirelength of the placement it holds. BIG OFFSET (checks/stress_streams.py): 10 %% more HP / IN cases "
+                        "are cases of the same generator TRANSLATED as a whole (cells and the absolute update positions) by 2^24 + odd, 2^25 + k, 2^26 + k, +-(2^30 - small), "
+                        "-(2^24 + odd) in x and / or y, all coordinates strictly inside +-2^30 (pin coordinates fit an int, most do not fit a binary32 float), one in four of them an "
+                        "IN-BOX case instead (positions just below 2^23, every raw pin offset moved by ~2^24 - small: inside the box of c09_incremental_exact_machine); 10 %% of the "
+                        "DO runs are circuits translated the same way (no shift op there), and >= 6 DO runs drive reordering windows of 6..8 cells" % len(po),
                 "exhaustive": True, "kinds": kinds,
+                "big_offset_stream": {"cases": len(big), "classes": big_classes, "IN_cases": sum(1 for l in big if l.startswith("IN")),
+                                      "what": "HP / IN cases of the random generator translated as a whole (every cell, and the absolute positions of the IN "
+                                              "updates) by 2^24 + odd, 2^25 + k (k not a multiple of 4), 2^26 + k, +-(2^30 - small), -(2^24 + odd) in x and / or y; all "
+                                              "coordinates strictly inside +-2^30; judged like every other case (model, from-scratch oracle); the DO stream "
+                                              "carries translated circuits too (detailed_placer_value_stream.stress_streams)"},
                 "samples": [po[len(po) // 2], lines[len(po) + 1], lines[-1]],
                 "model_vs_impl_differences": len(mism) + len(seq_mism), "impl_outputs_violating_statement": ofail_total,
                 "clauses": {"pin offsets = DEF transforms": "proved, all orientations/sizes/offsets",
